@@ -98,6 +98,13 @@ def _load(m: AllocMachine, op, vals, core):
 @handler(func.CallOp)
 def _call(m: AllocMachine, op, vals, core):
     callee = op.callee.string_value()
+    f = m.funcs.get(callee)
+    if f is not None and f.body.blocks:
+        res = yield from m.run_function(callee, [m.get(vals, o) for o in op.operands], core)
+        for r, v in zip(op.res, res):
+            vals[r] = v
+        m.probe("call-to-module-function")
+        return
     if callee != "snax_alloc_l1":
         raise HarnessError(f"call to @{callee} not modelled")
     size, align = (m.get(vals, o) for o in op.operands)
